@@ -248,3 +248,166 @@ theorem decodeList_amino : ∀ (ks : List Key), Key.wfList ks = true → ∀ fue
 end
 
 end Crypto
+
+namespace Crypto
+
+mutual
+theorem need_le : ∀ k : Key, k.need ≤ k.amino.length + 1
+  | .ed _ => by simp [Key.need]
+  | .secp _ => by simp [Key.need]
+  | .nil => by simp [Key.need]
+  | .multi ks => by
+    have := needList_le ks
+    simp [Key.need, Key.amino, pfxMulti]
+    omega
+theorem needList_le : ∀ ks : List Key, Key.needList ks ≤ (Key.aminoList ks).length + 1
+  | [] => by simp [Key.needList]
+  | k :: ks => by
+    have h1 := need_le k
+    have h2 := needList_le ks
+    have h3 := uvarint_length_pos k.amino.length
+    simp only [Key.needList, Key.aminoList, List.length_cons, List.length_append, lenPrefixed_length]
+    omega
+end
+
+/-- `PubKeyFromBytes (k.Bytes()) = k`. -/
+theorem pubKeyFromBytes_amino (k : Key) (h : k.wf = true) : pubKeyFromBytes k.amino = some k :=
+  decodeIface_amino k h _ (need_le k)
+
+/-! ### dispatch by length is unambiguous on encodings of well-formed keys -/
+
+mutual
+theorem size_class : ∀ k : Key, k.wf = true → 37 ≤ k.amino.length ∨ k.amino.length % 6 = 4
+  | .ed raw, h => by
+    simp only [Key.wf, beq_iff_eq, edSize] at h
+    left
+    simp [Key.amino, pfxEd, lenPrefixed_length, h, uvarint_length_small]
+  | .secp raw, h => by
+    simp only [Key.wf, beq_iff_eq, secpSize] at h
+    left
+    simp [Key.amino, pfxSecp, lenPrefixed_length, h, uvarint_length_small]
+  | .nil, h => by simp [Key.wf] at h
+  | .multi ks, h => by
+    simp only [Key.wf] at h
+    have := sizeList_class ks h
+    simp only [Key.amino, pfxMulti, List.length_append, List.length_cons, List.length_nil]
+    omega
+theorem sizeList_class : ∀ ks : List Key, Key.wfList ks = true →
+    39 ≤ (Key.aminoList ks).length ∨ (Key.aminoList ks).length % 6 = 0
+  | [], _ => by simp [Key.aminoList]
+  | k :: ks, h => by
+    simp only [Key.wfList, Bool.and_eq_true] at h
+    have h1 := size_class k h.1
+    have h2 := sizeList_class ks h.2
+    have h3 := uvarint_length_pos k.amino.length
+    simp only [Key.aminoList, List.length_cons, List.length_append, lenPrefixed_length]
+    by_cases hb : 37 ≤ k.amino.length
+    · omega
+    · have : (uvarint k.amino.length).length = 1 := uvarint_length_small (by omega)
+      omega
+end
+
+theorem multi_size_not_dispatch (ks : List Key) (h : Key.wfList ks = true) :
+    (Key.multi ks).amino.length ≠ edSize ∧ (Key.multi ks).amino.length ≠ secpSize := by
+  have := size_class (.multi ks) (by simpa [Key.wf] using h)
+  simp only [edSize, secpSize]
+  omega
+
+theorem newMultiKey_amino (ks : List Key) (h : Key.wfList ks = true) :
+    newMultiKey (pfxMulti ++ Key.aminoList ks) = some (.multi ks) := by
+  have hl := needList_le ks
+  have hd := decodeList_amino ks h (pfxMulti ++ Key.aminoList ks).length
+    (by simp [pfxMulti]; omega)
+  simp [pfxMulti] at hd
+  simp [newMultiKey, pfxMulti, decodeStruct, hd, skipFields]
+
+/-- `NewPublicKeyBz (k.RawBytes()) = k`. -/
+theorem newPublicKeyBz_rawBytes : ∀ k : Key, k.wf = true → newPublicKeyBz k.rawBytes = some k
+  | .ed raw, h => by
+    simp only [Key.wf, beq_iff_eq] at h
+    simp [newPublicKeyBz, Key.rawBytes, h]
+  | .secp raw, h => by
+    simp only [Key.wf, beq_iff_eq] at h
+    simp [newPublicKeyBz, Key.rawBytes, h, edSize, secpSize]
+  | .nil, h => by simp [Key.wf] at h
+  | .multi ks, h => by
+    simp only [Key.wf] at h
+    have hs := multi_size_not_dispatch ks h
+    have e : (Key.multi ks).rawBytes = pfxMulti ++ Key.aminoList ks := by simp [Key.rawBytes, Key.amino]
+    have e' : (Key.multi ks).amino = pfxMulti ++ Key.aminoList ks := by simp [Key.amino]
+    rw [e'] at hs
+    rw [e]
+    simp only [newPublicKeyBz, hs.1, hs.2, if_false]
+    exact newMultiKey_amino ks h
+
+/-! ### MultiSignature round trip -/
+
+theorem decodeSigList_encode : ∀ (sigs : List Bytes) (fuel : Nat), sigs.length < fuel →
+    decodeSigList fuel (sigs.flatMap fun s => 0x0a :: lenPrefixed s) = some (sigs, [])
+  | [], fuel, h => by
+    cases fuel with
+    | zero => omega
+    | succ f => simp [decodeSigList]
+  | s :: ss, fuel, h => by
+    cases fuel with
+    | zero => omega
+    | succ f =>
+      have ih := decodeSigList_encode ss f (by simp at h; omega)
+      simp only [List.flatMap_cons, List.cons_append, decodeSigList, readUvarint_0a]
+      simp [readByteSlice_lenPrefixed, ih]
+
+theorem decodeMultiSig_encode (sigs : List Bytes) :
+    decodeMultiSig (encodeMultiSig sigs) = some sigs := by
+  generalize hb : (sigs.flatMap fun s => (0x0a : UInt8) :: lenPrefixed s) = body
+  have hlen : sigs.length ≤ body.length := by
+    subst hb
+    induction sigs with
+    | nil => simp
+    | cons s ss ih => simp only [List.flatMap_cons, List.length_append, List.length_cons]; omega
+  have := decodeSigList_encode sigs ((pfxMsig ++ body).length + 1) (by simp; omega)
+  rw [hb] at this
+  simp only [decodeMultiSig, encodeMultiSig, hb]
+  simp [pfxMsig] at this ⊢
+  simp [this, skipFields]
+
+/-! ### AddSignatureByIndex -/
+
+theorem addSignatureByIndex_in_order (sigs : List Bytes) (sig : Bytes) (i : Nat)
+    (h : i ≤ sigs.length) : (addSignatureByIndex sigs sig i)[i]? = some sig := by
+  unfold addSignatureByIndex
+  by_cases hlt : i < sigs.length
+  · simp [hlt]
+  · have : i = sigs.length := by omega
+    subst this
+    simp
+
+theorem addSignatureByIndex_misplaced (sigs : List Bytes) (sig : Bytes) (i : Nat)
+    (h : sigs.length < i) :
+    (addSignatureByIndex sigs sig i)[i]? = none ∧ (addSignatureByIndex sigs sig i)[i - 1]? = some sig := by
+  unfold addSignatureByIndex
+  have hlt : ¬ i < sigs.length := by omega
+  simp only [hlt, if_false]
+  constructor
+  · apply List.getElem?_eq_none
+    simp; omega
+  · rw [List.getElem?_append_right (by simp; omega)]
+    have : i - 1 - (sigs ++ List.replicate (i - 1 - sigs.length) [0]).length = 0 := by simp; omega
+    rw [this]; rfl
+
+theorem addSignatureByIndexFixed_spec (sigs : List Bytes) (sig : Bytes) (i : Nat) :
+    (addSignatureByIndexFixed sigs sig i)[i]? = some sig ∧
+      ∀ j, j < sigs.length → j ≠ i → (addSignatureByIndexFixed sigs sig i)[j]? = sigs[j]? := by
+  unfold addSignatureByIndexFixed
+  by_cases hlt : i < sigs.length
+  · simp only [hlt, if_true]
+    refine ⟨by simp [hlt], fun j _ hne => ?_⟩
+    rw [List.getElem?_set_ne (Ne.symm hne)]
+  · simp only [hlt, if_false]
+    constructor
+    · rw [List.getElem?_append_right (by simp; omega)]
+      have : i - (sigs ++ List.replicate (i - sigs.length) [0]).length = 0 := by simp; omega
+      rw [this]; rfl
+    · intro j hj _
+      rw [List.append_assoc, List.getElem?_append_left hj]
+
+end Crypto
